@@ -321,6 +321,7 @@ void SoPlex_changeObjRational(void* soplex, long* objnums, long* objdenoms, int 
    }
 
    VectorRational objective(dim, objrational);
+   delete[] objrational;
    so->changeObjRational(objective);
 }
 
@@ -357,6 +358,7 @@ void SoPlex_changeLhsRational(void* soplex, long* lhsnums, long* lhsdenoms, int 
    }
 
    VectorRational lhs(dim, lhsrational);
+   delete[] lhsrational;
    so->changeLhsRational(lhs);
 }
 
@@ -409,6 +411,7 @@ void SoPlex_changeRhsRational(void* soplex, long* rhsnums, long* rhsdenoms, int 
    }
 
    VectorRational rhs(dim, rhsrational);
+   delete[] rhsrational;
    so->changeRhsRational(rhs);
 }
 
